@@ -35,6 +35,12 @@ def py_file(rng, k: int, dup: int | None) -> str:
                 lines.append(f'    configure_mode("{rng.choice(["alpha", "beta", "gamma", "delta"])}")')
         lines.append("    return a")
         lines.append("")
+    if rng.random() < 0.4:      # a class with a few methods: srp / stateless-class / method-property have something to judge
+        n_m = rng.choice([3, 4, 5, 8])
+        lines.append(f"class Box{k}:")
+        lines += ["    def __init__(self):", "        self.items = []", ""]
+        for j in range(n_m):
+            lines += [f"    def step_{j}(self, x):", f"        self.items.append(x + {j})", "        return self", ""]
     if dup is not None:
         lines.append(f"def shared_{k}(items, channel, storage, host, query):")
         if rng.random() < 0.3:
@@ -59,6 +65,13 @@ def ts_file(rng, k: int, dup: int | None) -> str:
         lines.append("  return a;")
         lines.append("}")
         lines.append("")
+    if rng.random() < 0.4:
+        n_m = rng.choice([3, 4, 5, 8])
+        lines.append(f"class Box{k} {{")
+        lines += ["  items: number[] = [];"]
+        for j in range(n_m):
+            lines += [f"  step{j}(x: number) {{", f"    this.items.push(x + {j});", "    return this;", "  }"]
+        lines += ["}", ""]
     if dup is not None:
         lines.append(f"function shared_{k}(items: number[], channel: string, storage: string) {{")
         lines += DUP_BLOCKS["ts"][0]
@@ -83,6 +96,12 @@ def rs_file(rng, k: int) -> str:
         lines.append("    a")
         lines.append("}")
         lines.append("")
+    if rng.random() < 0.4:
+        n_m = rng.choice([3, 4, 5, 8])
+        lines += [f"struct Box{k} {{", "    items: Vec<i32>,", "}", "", f"impl Box{k} {{"]
+        for j in range(n_m):
+            lines += [f"    pub fn step_{j}(&mut self, x: i32) -> i32 {{", f"        self.items.push(x + {j});", "        x", "    }"]
+        lines += ["}", ""]
     return "\n".join(lines)
 
 
@@ -196,6 +215,7 @@ LANG_CFGS = [
     "nesting:\n  max_nesting_depth: 2\n  python:\n    max_nesting_depth: 6\n",
     "nesting:\n  max_nesting_depth: 6\n  typescript:\n    max_nesting_depth: 2\n  rust:\n    max_nesting_depth: 3\n",
     "srp:\n  max_methods: 2\n  typescript:\n    max_methods: 9\n",
+    "srp:\n  max_methods: 6\n  python:\n    max_methods: 2\n  rust:\n    max_methods: 3\n",
     "magic-numbers:\n  allowed_numbers: [0, 1]\n  python:\n    allowed_numbers: [0, 1, 2, 100, 101, 102, 103]\n    max_small_integer: 3\n",
     "nesting:\n  max_nesting_depth: 3\n  rust:\n    max_nesting_depth: 7\nmagic-numbers:\n  max_small_integer: 2\n  typescript:\n    allowed_numbers: []\n",
 ]
